@@ -405,6 +405,10 @@ func SignBlindSignature(pp *PP, σ BlindSignature, sk SK) (*Signature, error) {
 }
 
 func UnBlind(pp *PP, pk PK, σ *Signature, h *math.G1, msg []*math.Zr, z *math.Zr) (*math.G1, error) {
+	if len(pk.Y) < len(msg) {
+		return nil, fmt.Errorf("public key has %d components but the message has %d", len(pk.Y), len(msg))
+	}
+
 	negZ := pp.c.ModNeg(z, pp.c.GroupOrder)
 	hPrime := σ.b.Copy()
 	hPrime.Add(σ.a.Mul(negZ))
